@@ -231,7 +231,7 @@ def int_as_float(n):
     return Num("float", text=repr(float(n)) if abs(n) < 2 ** 1000 else "1e300")
 
 
-def project(v, fmt, top=True):
+def project(v, fmt, top=True, keep_huge=False):
     """the nearest document the format can carry"""
     if fmt == "toml" and top and not isinstance(v, Obj):
         v = Obj([("v", v)])
@@ -239,7 +239,10 @@ def project(v, fmt, top=True):
         if v.kind == "int":
             if fmt == "toml" and not -2 ** 63 <= v.ival < 2 ** 63:
                 return int_as_float(v.ival)
-            if fmt in ("yaml", "yml") and not -2 ** 63 <= v.ival < 2 ** 64:
+            # serde_yaml rejects integers outside i64 / u64 ("invalid type: integer ... as u128") and json5
+            # rejects them too ("JSON number out of range"): written as floats, except in the fixed
+            # document that records the rejection
+            if fmt in ("yaml", "yml", "json", "json5") and not keep_huge and not -2 ** 63 <= v.ival < 2 ** 64:
                 return int_as_float(v.ival)
         if v.kind in ("inf", "ninf", "nan") and fmt in ("json", "json5"):
             return Num("float", text={"inf": "1.7976931348623157e308", "ninf": "-1.7976931348623157e308", "nan": "0.0"}[v.kind])
@@ -249,7 +252,7 @@ def project(v, fmt, top=True):
                 return Num("float", text="1e308")
         return v
     if isinstance(v, list):
-        items = [project(x, fmt, False) for x in v]
+        items = [project(x, fmt, False, keep_huge) for x in v]
         if fmt == "toml":
             items = [x for x in items if x is not None]
         return items
@@ -257,13 +260,13 @@ def project(v, fmt, top=True):
         entries = []
         seen = set()
         for k, x in v.entries:
-            x = project(x, fmt, False)
+            x = project(x, fmt, False, keep_huge)
             if fmt == "toml" and x is None:
                 continue
             if fmt not in ("yaml", "yml") and not isinstance(k, str):
                 k = "k"
             if isinstance(k, Num):
-                k = project(k, fmt, False)
+                k = project(k, fmt, False, keep_huge)
             if fmt in ("yaml", "yml", "toml"):
                 ident = ("s", k) if isinstance(k, str) else ("b", k) if isinstance(k, bool) else ("n", k.kind, k.ival, k.text)
                 if ident in seen:
